@@ -22,9 +22,13 @@ var c06APIStates = []string{"STANDBY", "DEPLOYED", "CONFIGURED", "RUNNING", "ERR
 // the environment was torn down still leaves no task owned.
 //verif:entry HarnessDestroyEnvironmentRequest unwind=96 preempt=0 timers=lazy reach=destroyed,kept stub=encoding/json.Marshal,(github.com/AliceO2Group/Control/core/protos.ControlEnvironmentRequest_Optype).String,github.com/AliceO2Group/Control/common/utils.TimeTrack,github.com/AliceO2Group/Control/common/utils.TimeTrackFunction,(*github.com/AliceO2Group/Control/core.RpcServer).logMethod,(*github.com/AliceO2Group/Control/core.RpcServer).logMethodHandled nosched=github.com/AliceO2Group/Control/core/the.mu steps=8000000
 func HarnessDestroyEnvironmentRequest() {
-	state := c06APIStates[vrt.IntRange("state", 0, len(c06APIStates)-1)]
+	states := c06APIStates
+	if vrt.Tier() == 0 {
+		states = []string{"DEPLOYED", "RUNNING", "ERROR"} // quick: one state per branch of the handler; thorough: all five
+	}
+	state := states[vrt.IntRange("state", 0, len(states)-1)]
 	req := &pb.DestroyEnvironmentRequest{Force: vrt.Bool("force"), KeepTasks: vrt.Bool("keep.tasks")}
-	if state == "RUNNING" { // the flag is only looked at for a running environment
+	if state == "RUNNING" && vrt.Tier() == 1 { // the flag is only looked at for a running environment; the stop-first path is left to the thorough tier (13 000 interleavings of the real STOP and RESET)
 		req.AllowInRunningState = vrt.Bool("allow.in.running.state")
 	}
 	killRefused := !req.KeepTasks && vrt.Bool("master.refuses.a.kill")
